@@ -261,6 +261,9 @@ func init() {
 			{"config 0 1 1", "access", "return 0 v 1 0", "settle", "cbreturn 0 0 4", "quiesce", "access", "released 0", "settle", "return 1 v 1 2", "quiesce", "access", "cancelcall 2", "quiesce"},
 			// Wait / Resolve keep the value alive until released; ResolveWithReleased fires once
 			{"config 0 1 1", "wait", "rwr 1", "resolve", "return 0 v 1 0", "quiesce", "released 0", "settle", "released 0", "quiesce", "return 1 v 1 0", "quiesce", "setctx 2", "quiesce", "release 0", "release 1", "release 2", "quiesce"},
+			// ResolveWithReleased: the release goroutine is held before its removeRef section (3rd lock-enter)
+			// while the next value is stored: a second qualifying notification must not fire released again
+			{"config 0 1 1", "gate lock-enter 3", "rwr 1", "return 0 v 1 0", "settle", "released 0", "settle", "return 1 v 1 0", "settle", "opengate 0", "quiesce", "release 0", "quiesce"},
 			// ResolveWithReleased: the user releases first, then the value is invalidated; error result
 			{"config 1 1 1", "rwr 1", "return 0 v 1 0", "settle", "release 0", "quiesce", "released 0", "quiesce", "rwr 0", "return 1 v 1 3", "quiesce", "wait", "cancelcall 2", "quiesce"},
 		},
